@@ -59,7 +59,15 @@ fn verdict_tx_w(tx: &Transaction, w: Weighting) -> String {
 /// the weightings a transaction is validated under in the node: as a transaction (pool admission),
 /// as a limited transaction (mineable-set selection), as a block body, and with no limit (every
 /// aggregate the pool builds)
+thread_local! {
+	/// quick tier, per-index sweeps: only the two weightings the pool uses (AsTransaction, NoLimit)
+	static LIGHT: std::cell::Cell<bool> = std::cell::Cell::new(false);
+}
+
 fn weightings() -> Vec<(&'static str, Weighting)> {
+	if LIGHT.with(|l| l.get()) {
+		return vec![("AsTransaction", Weighting::AsTransaction), ("NoLimit", Weighting::NoLimit)];
+	}
 	vec![
 		("AsTransaction", Weighting::AsTransaction),
 		("AsLimitedTransaction(max)", Weighting::AsLimitedTransaction(global::max_block_weight())),
@@ -93,8 +101,9 @@ fn fee_from_word(w: u64) -> grin_core::core::FeeFields {
 /// `TxKernel::read` / `FeeFields::read`); None when the reader refuses it
 fn through_bytes(tx: &Transaction) -> Option<Transaction> {
 	use grin_core::ser::{self, DeserializationMode, ProtocolVersion};
-	let v = ser::ser_vec(tx, ProtocolVersion(2)).ok()?;
-	ser::deserialize::<Transaction, _>(&mut &v[..], ProtocolVersion(2), DeserializationMode::default()).ok()
+	// protocol version 3: inputs as bare commitments (what libtx builds), kernels in the v2 layout
+	let v = ser::ser_vec(tx, ProtocolVersion(3)).ok()?;
+	ser::deserialize::<Transaction, _>(&mut &v[..], ProtocolVersion(3), DeserializationMode::default()).ok()
 }
 
 fn verdict_block(b: &Block, prev_offset: &BlindingFactor) -> String {
@@ -170,7 +179,9 @@ fn main() {
 			for (i, t) in covered.iter().enumerate() {
 				if let Some(t) = t {
 					cases += 1;
+					LIGHT.with(|l| l.set(!thorough && nk > 8 && i % 8 != 0));
 					expect_reject(&mut out, &format!("c01 tx n={} sig-of-another-kernel sorted-index={}", n, i), &verdict_tx(t), &mut bad);
+					LIGHT.with(|l| l.set(false));
 				}
 			}
 			out.raw(&format!("#STAT c01 n={} signature corruption landed on {} of {} sorted kernel indices", n, nk - left, nk));
@@ -183,7 +194,9 @@ fn main() {
 			let p = if no > 1 { agg.outputs()[donor].proof } else { txs[n].outputs()[0].proof };
 			t.body.outputs[i].proof = p;
 			cases += 1;
+			LIGHT.with(|l| l.set(!thorough && no > 8 && i % 8 != 0));
 			expect_reject(&mut out, &format!("c01 tx n={} proof-swapped index={}", n, i), &verdict_tx(&t), &mut bad);
+			LIGHT.with(|l| l.set(false));
 		}
 		// forged / missing range proof and forged / missing signature (not another object's, but
 		// bytes that are nobody's), first / middle / last index; like everything in this sweep under
@@ -509,20 +522,8 @@ fn main() {
 				&kc,
 				&ProofBuilder::new(&kc),
 			)
-			.map_err(|e| eprintln!("build: {:?}", e))
 			.ok()
-			.and_then(|t| {
-				let r = through_bytes(&t);
-				if r.is_none() {
-					use grin_core::ser::{self, DeserializationMode, ProtocolVersion};
-					let v = ser::ser_vec(&t, ProtocolVersion(2));
-					eprintln!("ser: {:?}", v.as_ref().map(|x| x.len()));
-					if let Ok(v) = v {
-						eprintln!("de: {:?}", ser::deserialize::<Transaction, _>(&mut &v[..], ProtocolVersion(2), DeserializationMode::default()).map(|_| ()));
-					}
-				}
-				r
-			});
+			.and_then(|t| through_bytes(&t));
 			match honest {
 				Some(t) => {
 					let got = format!("fee={} fee_shift={} shifted_fee={} overage={}", t.fee(), t.body.fee_shift(), t.shifted_fee(), t.overage());
